@@ -45,6 +45,16 @@ Oracle (independent of adcgen's simplify / pattern matching):
   default name of a renamed field.
 * Documented refusals (Inputerror / NotImplementedError in the pristine
   process as well) are counted, not reported.
+
+Finding keys: <dimension>-value:<probe>, <dimension>-term-order:<probe>
+(same term texts, other order), <dimension>-contracted-naming:<probe> (term
+by term equal up to a permutation of the names of the contracted indices),
+<dimension>-text:<probe>, <dimension>-exception:<probe>,
+shared-contracted-indices:<probe>, generic-name-reused:<probe>,
+default-name-left:<probe>.  Every process runs at most one request at a
+time (worker -> history child -> probe grandchild are strictly nested), so
+the number of running processes is bounded by the harness' --nproc.
+C19_DUMP=<file> (debugging aid) writes all non-ok results as JSON.
 """
 import atexit
 import hashlib
@@ -317,11 +327,18 @@ def _seeds(tier):
     return list(range(4)) if tier == "quick" else list(range(16))
 
 
+def _own_seed():
+    try:
+        return int(os.environ.get("PYTHONHASHSEED", "0"))
+    except ValueError:
+        return 0
+
+
 def bounds(tier):
     return {"history_alphabet": ALPHABET, "history_depth": _depth(tier),
             "probes": PROBES, "history_only_probes": HIST_ONLY_PROBES,
             "hash_seeds": _seeds(tier),
-            "seed_history_depth": 1,
+            "seed_history_depth": 1, "seed_of_history_dimension": _own_seed(),
             "configs": CONFIGS, "config_history_alphabet": CFG_ALPHABET,
             "config_history_depth": 1, "config_probes": CFG_PROBES,
             "models": {k: v["model"] for k, v in REQ.items()}}
@@ -335,10 +352,16 @@ def _words(alphabet, depth):
 
 
 def generate(tier):
-    _ensure_ref()
+    _ensure_ref().build_all(_words(ALPHABET, 1))
     cases = [("hist", "", w) for w in _words(ALPHABET, _depth(tier))]
+    own = _own_seed()
     for s in _seeds(tier):
         for w in _words(ALPHABET, 1):
+            if s == own and w:
+                # seed of this run: the history dimension already runs under
+                # it; only the fresh-interpreter / forked-child consistency
+                # of the history-free requests is checked here
+                continue
             cases.append(("seed", s, w))
     for c in CONFIGS:
         for w in _words(CFG_ALPHABET, 1):
@@ -799,7 +822,6 @@ def _judge(dim, label, word, q, rec, ref, cfg):
     problems = []      # (finding, detail)
     for finding, detail in rec["monitor"]:
         problems.append((f"{finding}:{q}", detail))
-    n = max(len(rec["calls"]), 1)
     for k, call in enumerate(rec["calls"]):
         rcall = ref["calls"][min(k, len(ref["calls"]) - 1)]
         if call.get("exc") or rcall.get("exc"):
@@ -1071,13 +1093,6 @@ def explore(dim, label, word, probes, ref, cfg):
 # ==========================================================================
 # reference (pristine process, default names, seed of this run)
 # ==========================================================================
-_REF = None
-
-
-def _ref_file():
-    return os.path.join(_SCRATCH, "reference.pickle")
-
-
 def _ref_word(word):
     out = {}
     for rec in explore("ref", "", word, sorted(REQ), None, None):
@@ -1085,38 +1100,93 @@ def _ref_word(word):
             raise RuntimeError("reference run failed: " +
                                str(rec.get("detail")))
         out[rec["q"]] = rec
-    return tuple(word), out
+    return out
+
+
+class Reference:
+    """{history word (depth <= 1): {request: record}} observed in pristine
+    processes of the interpreter configuration of this run (default tensor
+    names, PYTHONHASHSEED of the run); one pickle file per word, built on
+    demand.  ref[()] is the history-free reference of the history dimension;
+    the seed / config dimensions compare with the record of the *same* word,
+    so that they only report what the seed / the names change."""
+
+    def __init__(self, directory, may_build):
+        self.dir = directory
+        self.may_build = may_build
+        self.mem = {}
+
+    def path(self, word):
+        return os.path.join(self.dir,
+                            "ref_" + ("-".join(word) or "EMPTY") + ".pickle")
+
+    def __getitem__(self, word):
+        word = tuple(word)
+        if word not in self.mem:
+            self.build(word)
+            with open(self.path(word), "rb") as f:
+                self.mem[word] = pickle.load(f)
+        return self.mem[word]
+
+    def build(self, word):
+        """must run in a pristine process (only forks)"""
+        path = self.path(word)
+        if os.path.exists(path):
+            return path
+        if not self.may_build:
+            raise RuntimeError(f"reference record {path} is missing")
+        os.makedirs(self.dir, exist_ok=True)
+        lock = path + ".lock"
+        try:
+            os.close(os.open(lock, os.O_CREAT | os.O_EXCL | os.O_WRONLY))
+        except FileExistsError:
+            # another worker is building it
+            t0 = time.time()
+            while time.time() - t0 < 900:
+                if os.path.exists(path):
+                    return path
+                time.sleep(0.5)
+        rec = _ref_word(tuple(word))
+        fd, tmp = tempfile.mkstemp(dir=self.dir)
+        with os.fdopen(fd, "wb") as f:
+            pickle.dump(rec, f)
+        os.replace(tmp, path)
+        return path
+
+    def build_all(self, words):
+        words = [w for w in words if not os.path.exists(self.path(w))]
+        if not words:
+            return
+        try:
+            import multiprocessing as mp
+            with mp.get_context("fork").Pool(
+                    min(_nproc_cap(), len(words))) as pool:
+                pool.map(self.build, words, chunksize=1)
+        except (AssertionError, OSError, ValueError):
+            for w in words:
+                self.build(w)
+
+
+def _nproc_cap():
+    """never more simultaneous explorations than the harness' --nproc"""
+    n = min(8, os.cpu_count() or 1)
+    if "--nproc" in sys.argv:
+        try:
+            n = min(n, int(sys.argv[sys.argv.index("--nproc") + 1]))
+        except (ValueError, IndexError):
+            pass
+    return max(1, n)
+
+
+_REF = None
 
 
 def _ensure_ref():
-    """{history word (depth <= 1): {request: record}} observed in pristine
-    processes of this interpreter configuration.  ref[()] is the
-    history-free reference of the history dimension; the seed / config
-    dimensions compare with the record of the *same* word, so that they only
-    report what the seed / the names change."""
     global _REF
-    if _REF is not None:
-        return _REF
-    path = os.environ.get("C19_REF_FILE") or _ref_file()
-    if os.path.exists(path):
-        with open(path, "rb") as f:
-            _REF = pickle.load(f)
-        return _REF
-    words = _words(ALPHABET, 1)
-    try:
-        import multiprocessing as mp
-        with mp.get_context("fork").Pool(
-                min(8, os.cpu_count() or 1, len(words))) as pool:
-            ref = dict(pool.map(_ref_word, words, chunksize=1))
-    except (AssertionError, OSError, ValueError):
-        ref = dict(_ref_word(w) for w in words)
-    os.makedirs(_SCRATCH, exist_ok=True)
-    fd, tmp = tempfile.mkstemp(dir=_SCRATCH)
-    with os.fdopen(fd, "wb") as f:
-        pickle.dump(ref, f)
-    os.replace(tmp, path)
-    _REF = ref
-    return ref
+    if _REF is None:
+        d = os.environ.get("C19_REF_DIR")
+        _REF = Reference(d or _SCRATCH, may_build=not d)
+    return _REF
 
 
 # ==========================================================================
@@ -1144,7 +1214,9 @@ def _package_copy(cname):
 
 
 def _run_engine(dim, label, word, probes, cfg):
-    _ensure_ref()
+    ref = _ensure_ref()
+    ref.build(())
+    ref.build(word)
     os.makedirs(_SCRATCH, exist_ok=True)
     fd, spec = tempfile.mkstemp(dir=_SCRATCH, suffix=".json")
     out = spec + ".out"
@@ -1161,8 +1233,7 @@ def _run_engine(dim, label, word, probes, cfg):
     else:
         env["PYTHONHASHSEED"] = str(label)
     env["PYTHONPATH"] = os.pathsep.join(pp)
-    env["C19_REF_FILE"] = _ref_file() if not os.environ.get("C19_REF_FILE") \
-        else os.environ["C19_REF_FILE"]
+    env["C19_REF_DIR"] = ref.dir
     env["C19_REF_SEED"] = os.environ.get("PYTHONHASHSEED", "0")
     env["ADCGEN_LOG_LEVEL"] = "ERROR"
     env["PYTHONDONTWRITEBYTECODE"] = "1"
@@ -1195,7 +1266,7 @@ def _engine_main(specfile):
     if spec["dim"] == "cfg":
         import adcgen
         here = os.path.dirname(os.path.abspath(adcgen.__file__))
-        if not here.startswith(os.path.dirname(os.environ["C19_REF_FILE"])):
+        if not here.startswith(os.environ["C19_REF_DIR"]):
             raise RuntimeError(f"adcgen imported from {here}, not from the "
                                "scratch copy")
     res = explore(spec["dim"], spec["label"], tuple(spec["word"]),
@@ -1211,8 +1282,9 @@ def run_case(case):
     dim, label, word = case
     word = tuple(word)
     if dim == "hist":
-        return explore(dim, label, word, PROBES + HIST_ONLY_PROBES,
-                       _ensure_ref(), None)
+        ref = _ensure_ref()
+        ref[()]     # built / loaded here, in the pristine worker
+        return explore(dim, label, word, PROBES + HIST_ONLY_PROBES, ref, None)
     if dim == "seed":
         return _run_engine(dim, label, word, PROBES, None)
     if dim == "cfg":
